@@ -60,6 +60,8 @@ func errClass(msg string) string {
 		return "invalid_capture_index" + rest[:n]
 	case strings.Contains(msg, "invalid use of '%'"):
 		return "invalid_pct"
+	case strings.Contains(msg, "must be an integer"):
+		return "not_integer"
 	}
 	return "other:" + hex.EncodeToString([]byte(msg))
 }
@@ -75,15 +77,26 @@ func capsStr(caps []pattern.Capture) string {
 func apiStr(p *pattern.Pattern, s string, init int, budget uint64, fromStart bool) string {
 	var caps []pattern.Capture
 	var used uint64
-	if fromStart {
-		caps, used = p.MatchFromStart(s, init, budget)
-	} else {
-		caps, used = p.Match(s, init, budget)
-	}
+	escaped := false // a Go panic came out of Match / MatchFromStart
+	func() {
+		defer func() {
+			if x := recover(); x != nil {
+				escaped = true
+			}
+		}()
+		if fromStart {
+			caps, used = p.MatchFromStart(s, init, budget)
+		} else {
+			caps, used = p.Match(s, init, budget)
+		}
+	}()
 	_, _, panicked := pattern.VerifMatchRaw(p, s, init, budget, fromStart)
 	res := "nil"
 	if len(caps) > 0 {
 		res = "c" + capsStr(caps)
+	}
+	if escaped {
+		res, used = "panic", 0
 	}
 	pf := "0"
 	if panicked != "" {
@@ -169,7 +182,18 @@ func casesEngine(in *bufio.Scanner, out *bufio.Writer) {
 		}
 		id, ptn, s, repl, mode := f[0], unhex(f[1]), unhex(f[2]), unhex(f[4]), f[7]
 		init, _ := strconv.Atoi(f[3])
-		maxn, _ := strconv.Atoi(f[5])
+		// 4th argument of gsub: A (absent) | i<signed hex> | f<float>
+		var maxn *rt.Value
+		switch f[5][0] {
+		case 'i':
+			n, _ := strconv.ParseInt(f[5][1:], 16, 64)
+			v := rt.IntValue(n)
+			maxn = &v
+		case 'f':
+			x, _ := strconv.ParseFloat(f[5][1:], 64)
+			v := rt.FloatValue(x)
+			maxn = &v
+		}
 		budget, _ := strconv.ParseUint(f[6], 10, 64)
 		var b strings.Builder
 		b.WriteString(id)
@@ -223,8 +247,8 @@ func casesEngine(in *bufio.Scanner, out *bufio.Writer) {
 				b.WriteString(" GM=" + strings.Join(seq, "/") + "!" + fin)
 			}
 			// gsub
-			if maxn >= 0 {
-				v, e, pk = ls.call(ls.gsub, sv, pv, rt.StringValue(repl), rt.IntValue(int64(maxn)))
+			if maxn != nil {
+				v, e, pk = ls.call(ls.gsub, sv, pv, rt.StringValue(repl), *maxn)
 			} else {
 				v, e, pk = ls.call(ls.gsub, sv, pv, rt.StringValue(repl))
 			}
